@@ -103,7 +103,11 @@ func genC14(seed uint64, tier string) *plan.Plan {
 			}
 		default:
 			if nT < 5 {
-				pl.Ops = append(pl.Ops, plan.Op{K: "tmpl", A: int64(nT), N: pickElems(r, 1+r.IntN(4), true)})
+				op := plan.Op{K: "tmpl", A: int64(nT), N: pickElems(r, 1+r.IntN(4), true)}
+				if udp && r.IntN(6) == 0 {
+					op.N, op.S = nil, "empty" // a template record without fields, under a new id
+				}
+				pl.Ops = append(pl.Ops, op)
 				nT++
 			}
 		}
